@@ -8,7 +8,7 @@ import base64
 import hashlib
 import struct
 
-from sa.props._lib_d import VMStub
+from sa.props._lib_h_d import VMStub
 
 
 class NS_(VMStub):
